@@ -1672,8 +1672,10 @@ where
                 let incarnation = Incarnation::max(incarnation, self.incarnation);
 
                 // We need to rejoin the cluster when this situation happens
-                // because it will be impossible to refute suspicion
-                if incarnation == Incarnation::MAX {
+                // because it will be impossible to refute suspicion. A stale
+                // suspicion (about an incarnation we've already moved past)
+                // has been refuted already and requires nothing of the sort
+                if increase_incarnation && incarnation == Incarnation::MAX {
                     if !self.attempt_rejoin(&mut runtime)? {
                         #[cfg(feature = "tracing")]
                         tracing::debug!("Inactive: reached Incarnation::MAX",);
